@@ -116,7 +116,7 @@ def imports_gen(modules):
     return any(m.startswith("JF.Gen.") for m in seen)
 
 
-def prove(modules, components=(), pre=None):
+def prove(modules, components=(), pre=None, recheck=False):
     """build the theorem modules; return dict(ok, theorems=[(name, axioms)], errors=[...]).
     `pre` (the translator) runs under the same lock as the build, so that a concurrently running check of another tree cannot
     regenerate JF/Gen between this check's translation and its build."""
@@ -154,6 +154,14 @@ def prove(modules, components=(), pre=None):
                     if bad:
                         out["ok"] = False
                         out["errors"].append(f"theorem {mm.group(1)} depends on non-standard axioms {bad}")
+        if recheck and out["ok"]:
+            # thorough tier: the toolchain's independent re-checker replays every declaration of the compiled theorem modules
+            q = _lake(["env", "leanchecker"] + list(modules))
+            txt = (q.stdout + q.stderr).strip()
+            out["leanchecker"] = {"cmd": "lake env leanchecker " + " ".join(modules), "exit": q.returncode, "output": txt[-500:]}
+            if q.returncode != 0 or "uncaught exception" in txt or "error" in txt.lower():
+                out["ok"] = False
+                out["errors"].append("leanchecker rejected the compiled theorem modules:\n" + txt[-3000:])
     _locked(work)
     # source grep over the import closure of the theorem modules and driver components (comments stripped):
     # no sorry/admit/axiom/native_decide … in anything the obligations or the model executables depend on
@@ -211,9 +219,14 @@ def jsonable(o):
     return str(o)
 
 
+OTHER_TREE = os.path.realpath(os.environ.get("VERIF_REPO", "/repo")) != os.path.realpath("/repo")
+
+
 def write_evidence(pid, ev):
-    os.makedirs(os.path.join(VERIF, "evidence"), exist_ok=True)
-    p = os.path.join(VERIF, "evidence", f"{pid}.json")
+    # evidence/ describes runs against /repo itself; a run against another tree (VERIF_REPO, the seeded-defect study) writes elsewhere
+    sub = "evidence_other" if OTHER_TREE else "evidence"
+    os.makedirs(os.path.join(VERIF, sub), exist_ok=True)
+    p = os.path.join(VERIF, sub, f"{pid}.json")
     tmp = p + f".{os.getpid()}.tmp"
     with open(tmp, "w") as f:
         json.dump(jsonable(ev), f, indent=1)
@@ -263,7 +276,7 @@ def main(argv=None):
         if getattr(mod, "NEEDS_GEN", False) or imports_gen(tmods):
             from harness import translate
             pre = lambda: translate.regenerate(root)
-        proof = prove(tmods, getattr(mod, "COMPONENTS", ()), pre)
+        proof = prove(tmods, getattr(mod, "COMPONENTS", ()), pre, recheck=(a.tier == "thorough"))
 
         if a.replay:
             case = json.load(open(a.replay))
@@ -323,6 +336,7 @@ def main(argv=None):
                                  "harness/framework.py, harness/drive.py, lean/Driver/Main.lean"] +
                                 list(getattr(mod, "TRUSTED", [])),
                 "theorems": [n for n, _ in thms],
+                **({"leanchecker": proof["leanchecker"]} if "leanchecker" in proof else {}),
                 "evaluations": ctx.evaluations,
                 "distinct_nontrivial": len(ctx.classes),
                 "rule": ctx.rule,
@@ -349,6 +363,12 @@ def main(argv=None):
         return 1 if violations else 0
     finally:
         scratch.remove_scratch(sdir)
+        if OTHER_TREE:
+            # the generated files of another tree must not stay behind in /verif (they are tracked; the committed ones are /repo's)
+            try:
+                _locked(lambda: subprocess.run(["git", "-C", VERIF, "checkout", "--", "lean/JF/Gen"], capture_output=True))
+            except Exception:
+                pass
 
 
 if __name__ == "__main__":
